@@ -2685,6 +2685,27 @@ def _c20_types(o, d, z):
         ("moon.azimuth", lambda: moon.azimuth(o, dt), "float"), ("moon.elevation", lambda: moon.elevation(o, dt), "float"),
         ("phase", lambda: moon.phase(d), "float"),
     ]
+    # an explicit date together with the zone given by NAME (also as an instance of a str subclass)
+    class _StrSub(str):
+        pass
+    for znm in ("Asia/Tokyo", _StrSub("America/Adak")):
+        lab = "(date, zone name%s)" % ("" if type(znm) is str else " as a str subclass")
+        lst += [
+            ("dawn" + lab, lambda znm=znm: sun.dawn(o, d, 6, znm), "dt"),
+            ("sunset" + lab, lambda znm=znm: sun.sunset(o, d, znm), "dt"),
+            ("noon" + lab, lambda znm=znm: sun.noon(o, d, znm), "dt"),
+            ("midnight" + lab, lambda znm=znm: sun.midnight(o, d, znm), "dt"),
+            ("daylight" + lab, lambda znm=znm: sun.daylight(o, d, znm), "pair"),
+            ("night" + lab, lambda znm=znm: sun.night(o, d, znm), "pair"),
+            ("twilight" + lab, lambda znm=znm: sun.twilight(o, d, SunDirection.RISING, znm), "pair"),
+            ("golden_hour" + lab, lambda znm=znm: sun.golden_hour(o, d, SunDirection.SETTING, znm), "pair"),
+            ("blue_hour" + lab, lambda znm=znm: sun.blue_hour(o, d, SunDirection.SETTING, znm), "pair"),
+            ("rahukaalam" + lab, lambda znm=znm: sun.rahukaalam(o, d, True, znm), "pair"),
+            ("sun" + lab, lambda znm=znm: sun.sun(o, d, 6, znm), "dict"),
+            ("time_at_elevation" + lab, lambda znm=znm: sun.time_at_elevation(o, 4.0, d, SunDirection.RISING, znm), "dt"),
+            ("moonrise" + lab, lambda znm=znm: moon.moonrise(o, d, znm), "optdt"),
+            ("moonset" + lab, lambda znm=znm: moon.moonset(o, d, znm), "optdt"),
+        ]
     # the same functions with the date omitted and the zone given by NAME (every accepted spelling
     # of the arguments has to reach the same documented outcomes)
     zn = "Pacific/Auckland"
